@@ -5,6 +5,8 @@
 use vcommon::{Report, ShardArgs};
 
 mod c03;
+mod c11;
+mod c14;
 mod c16;
 mod c17;
 mod c19;
@@ -19,6 +21,8 @@ fn main() {
 		.expect("runtime");
 	match args.prop.as_str() {
 		"C03" => rt.block_on(c03::run(&args, &mut rep)),
+		"C11" => rt.block_on(c11::run(&args, &mut rep)),
+		"C14" => rt.block_on(c14::run(&args, &mut rep)),
 		"C16" => c16::run(&args, &mut rep),
 		"C17" => c17::run(&args, &mut rep),
 		"C19" => c19::run(&args, &mut rep),
